@@ -24,6 +24,7 @@ import (
 	"encoding/base64"
 	"encoding/json"
 	"math/big"
+	"sort"
 	"strconv"
 )
 
@@ -116,7 +117,16 @@ func ChangeAssets(source string, targets map[string]types.TransferData, accountd
 	responseCoin := types.NewJSONObject()
 	responseFT := types.NewJSONObject()
 
-	for address, transferData := range targets {
+	// Go randomises map iteration; the outcome (e.g. when the source is one of
+	// the targets) must be the same on every node, so walk the targets in key order.
+	addresses := make([]string, 0, len(targets))
+	for address := range targets {
+		addresses = append(addresses, address)
+	}
+	sort.Strings(addresses)
+
+	for _, address := range addresses {
+		transferData := targets[address]
 		targetAddr := common.HexToAddress(address)
 
 		// 转钱
